@@ -4,7 +4,9 @@ use serde_json::{json, Value};
 use std::cmp::Ordering;
 
 mod apath_ops;
+mod gcops;
 mod rawarchive;
+mod roundtrip;
 
 fn main() {
     let path = std::env::args().nth(1).expect("scenario path");
@@ -14,6 +16,8 @@ fn main() {
     let out = match kind {
         "apath_batch" => apath_ops::run_batch(&sc),
         "stitch" => rawarchive::run_stitch(&sc),
+        "roundtrip" => roundtrip::run(&sc),
+        "gc" => gcops::run(&sc),
         other => json!({"error": format!("unknown scenario kind {other}")}),
     };
     println!("{}", serde_json::to_string(&out).unwrap());
